@@ -88,6 +88,12 @@ package local
 //@   on call (*sync.Mutex).Unlock : held = false
 //@   on call ioutil.ReadFile : assert held
 //@   on call ioutil.WriteFile : assert held
+// ... and the next number is computed from exactly what the counter file says: a file that does not spell a number (blank
+// after an interrupted write, hand-edited) makes the start fail - it is never read as "start counting again"
+//@   ghostvar content []byte = nil
+//@   ghostvar wasRead bool = false
+//@   on aftercall ioutil.ReadFile : content = result0 ; wasRead = true
+//@   on call strconv.ParseUint : assert wasRead && arg0 == bstr(content)
 
 // C20: resolving a query that is not there is an error, not a crash of the configuration service
 //@ func (s *Service) ResolveComponentQuery(query *componentcfg.Query) (resolved *componentcfg.Query, err error)
